@@ -557,3 +557,56 @@ func VC_C07_reassigned_between_rounds() {
 	verifAssert(vSvcA == between, "C07.rounds.second-reset-restores-the-value-before-the-second-round")
 	verifReached("C07.rounds")
 }
+
+func vCbAlphaShort(ctx *IContext) int { return 0 } // lacks the method's parameter
+
+// VC_C07_retry_after_rejected: an ill-formed stub of a method (an As function that lacks
+// the method's parameter; the panic is recovered) followed by the correct one on the same
+// variable and builder: the variable holds the mock, the method reaches its stub; other
+// methods are notImplement; Reset restores.
+func VC_C07_retry_after_rejected() {
+	vEnv()
+	stub.VerifResetMmap()
+	vSvcA = nil
+	t := reflect.TypeOf(&vSvcA).Elem()
+	b := Create()
+	if verifBool("otherMethodFirst") {
+		b.Interface(&vSvcA).Method("Gamma").Apply(vCbGamma)
+	}
+	rejected := false
+	func() {
+		defer func() {
+			if r := recover(); r != nil {
+				rejected = true
+			}
+		}()
+		switch verifChoice("badForm", 3) {
+		case 0:
+			b.Interface(&vSvcA).Method("Alpha").As(vCbAlphaShort).Return(1)
+		case 1:
+			b.Interface(&vSvcA).Method("Alpha").As(vCbAlphaShort).When(1).Return(1)
+		default:
+			b.Interface(&vSvcA).Method("Alpha").As(vCbAlphaShort).Returns(1, 2)
+		}
+	}()
+	verifAssert(rejected, "C07.retry.ill-formed-stub-rejected")
+	r := verifInt("r")
+	switch verifChoice("goodForm", 2) {
+	case 0:
+		b.Interface(&vSvcA).Method("Alpha").As(vCbAlpha).Return(r)
+	default:
+		b.Interface(&vSvcA).Method("Alpha").Apply(func(ctx *IContext, x int) int { return r })
+	}
+	verifAssert(vSvcA != nil, "C07.retry.variable-holds-the-mock")
+	if vSvcA != nil {
+		f, recv, notImpl := vDispatch(unsafe.Pointer(&vSvcA), vSlotOf(t, "Alpha"), "C07.retry")
+		verifAssert(!notImpl && f != nil, "C07.retry.method-mocked")
+		if !notImpl && f != nil {
+			got, p := vCall07(f, recv, verifInt("x"))
+			verifAssert(!p && got == r, "C07.retry.correct-stub-delivered")
+		}
+	}
+	b.Reset()
+	verifAssert(vSvcA == nil, "C07.retry.reset-restores")
+	verifReached("C07.retry")
+}
